@@ -6,6 +6,8 @@ import (
 	"regexp"
 	"strconv"
 	"strings"
+	"verif/internal/corpus"
+	"verif/internal/graph"
 	"verif/internal/llvmref"
 
 	"github.com/llir/llvm/ir"
@@ -22,6 +24,7 @@ func init() {
 		Rule: "type universes in LLVM's data model (unique names, only structs named): 3-8 identified structs (opaque, packed, empty, mutually recursive through pointers/arrays/function types) plus PRNG literal types of depth<=3 over all kinds and every one-attribute neighbour of each; each universe is built twice through types.New* and a third time by parsing its printed form. " +
 			"Checked over all ordered pairs: Equal agrees with the reference identity (canonical descriptor string), is reflexive and symmetric; over all triples (universes<=70 types, sampled beyond): transitive; every one-attribute neighbour is unequal; Equal(t, parse(print t)). " +
 			"number spellings: array and vector lengths (up to 2^64-1), address spaces (up to 2^24-1) and integer widths in decimal, zero-padded decimal and u0x spellings must give the type LLVM reads (expected spelling written by the monitor from the number). edit-after-query: a struct named or given its body, a signature made variadic, an address space changed after Equal/String were called: equality and spelling of the types built on them follow the edit. " +
+			"corpus universes: the type objects reachable from every accepted corpus module (atoms, repo testdata, clang corpus: hundreds of identified structs, function types, vectors, address spaces), from two independent parses of the same text; on every pair within a parse and across the parses Equal, both ways round, must agree with a reference identity written without Equal or String (identified structs by name, the rest by structure, names of non-struct types ignored). " +
 			"non-trivial = an ordered pair of distinct descriptors, or a pair of separately constructed objects of the same descriptor; distinct by (universe seed, i, j)",
 		Gen:           genC16,
 		MinNontrivial: 10000,
@@ -347,6 +350,10 @@ func genC16(ctx *fw.Ctx) []fw.Case {
 		cases = append(cases, fw.Case{ID: fmt.Sprintf("universe/%d", i), Run: func(r *fw.Rec) { c16Universe(r, i) }})
 	}
 	cases = append(cases, fw.Case{ID: "number-spellings", Run: c16NumberSpellings})
+	for _, s := range append(baseSources(), corpus.ClangSources(ctx.Thorough())...) {
+		s := s
+		cases = append(cases, fw.Case{ID: "corpus/" + s.ID, Run: func(r *fw.Rec) { c16Corpus(r, s) }})
+	}
 	cases = append(cases, fw.Case{ID: "edit-after-query", Run: c16EditAfterQuery})
 	return cases
 }
@@ -828,4 +835,141 @@ func c16EditAfterQuery(r *fw.Rec) {
 			}
 		}
 	}
+}
+
+// c16RefKey is the reference identity of a type object, written without using
+// Equal or String: identified structs by name, everything else by structure; the
+// name of a non-struct type is an alias and takes no part.
+func c16RefKey(t types.Type, depth int) string {
+	if depth > 60 {
+		return "<deep>"
+	}
+	switch t := t.(type) {
+	case *types.VoidType:
+		return "void"
+	case *types.LabelType:
+		return "label"
+	case *types.TokenType:
+		return "token"
+	case *types.MetadataType:
+		return "metadata"
+	case *types.MMXType:
+		return "mmx"
+	case *types.IntType:
+		return fmt.Sprintf("i%d", t.BitSize)
+	case *types.FloatType:
+		return fmt.Sprintf("f%d", int(t.Kind))
+	case *types.PointerType:
+		return fmt.Sprintf("p%d(%s)", uint64(t.AddrSpace), c16RefKey(t.ElemType, depth+1))
+	case *types.VectorType:
+		return fmt.Sprintf("v%v,%d(%s)", t.Scalable, t.Len, c16RefKey(t.ElemType, depth+1))
+	case *types.ArrayType:
+		return fmt.Sprintf("a%d(%s)", t.Len, c16RefKey(t.ElemType, depth+1))
+	case *types.StructType:
+		if t.TypeName != "" {
+			return "named(" + t.TypeName + ")"
+		}
+		if t.Opaque {
+			return "opaque-literal"
+		}
+		k := fmt.Sprintf("s%v(", t.Packed)
+		for _, f := range t.Fields {
+			k += c16RefKey(f, depth+1) + ";"
+		}
+		return k + ")"
+	case *types.FuncType:
+		k := fmt.Sprintf("fn%v(%s:", t.Variadic, c16RefKey(t.RetType, depth+1))
+		for _, p := range t.Params {
+			k += c16RefKey(p, depth+1) + ";"
+		}
+		return k + ")"
+	}
+	return fmt.Sprintf("?%T", t)
+}
+
+// c16Corpus takes the type objects of a parsed corpus module (and of a second,
+// independent parse of the same text) as a universe: Equal on every pair must
+// agree with the reference identity, in both directions, within a parse and
+// across the two parses.
+func c16Corpus(r *fw.Rec, s corpus.Source) {
+	text, err := s.Text()
+	if err != nil {
+		r.Inconclusive("source unavailable")
+		return
+	}
+	m1, perr, pmsg := parseGuard(s.ID, text)
+	if pmsg != "" || perr != nil || m1 == nil {
+		r.Tally("corpus", "not-accepted")
+		return
+	}
+	m2, _, _ := parseGuard(s.ID, text)
+	if m2 == nil {
+		return
+	}
+	sample := func(ts []types.Type, n int) []types.Type {
+		if len(ts) <= n {
+			return ts
+		}
+		// all type definitions first, then an even sample of the rest
+		out := append([]types.Type(nil), ts[:n/2]...)
+		rest := ts[n/2:]
+		for i := 0; i < n-n/2; i++ {
+			out = append(out, rest[i*len(rest)/(n-n/2)])
+		}
+		return out
+	}
+	limit := r.Ctx().Pick(120, 400)
+	A := sample(graph.CollectTypes(m1), limit)
+	B := sample(graph.CollectTypes(m2), limit)
+	if len(A) < 2 {
+		return
+	}
+	ka := make([]string, len(A))
+	for i, t := range A {
+		ka[i] = c16RefKey(t, 0)
+	}
+	kb := make([]string, len(B))
+	for i, t := range B {
+		kb[i] = c16RefKey(t, 0)
+	}
+	pairs := 0
+	check := func(x, y types.Type, kx, ky, how string) bool {
+		var e1, e2 bool
+		if p, msg, _ := fw.Guard(func() { e1, e2 = x.Equal(y), y.Equal(x) }); p {
+			r.Violate(fw.Violation{Key: "corpus-equal-panics/" + s.ID, Input: text, What: "Equal panics on two types of " + s.ID + ": " + firstLine(msg)})
+			return false
+		}
+		pairs++
+		want := kx == ky
+		if e1 != want || e2 != want {
+			r.Violate(fw.Violation{Key: "corpus-identity/" + how + "/" + s.ID, Input: text,
+				What: fmt.Sprintf("types of %s (%s): Equal(%s, %s) = %v and %v the other way round, reference identity says %v (%s vs %s)", s.ID, how, x, y, e1, e2, want, fw.Trunc(kx, 120), fw.Trunc(ky, 120))})
+			return false
+		}
+		return true
+	}
+	for i := range A {
+		for j := i; j < len(A); j++ {
+			if !check(A[i], A[j], ka[i], ka[j], "one-parse") {
+				return
+			}
+		}
+	}
+	for i := range A {
+		for j := range B {
+			if !check(A[i], B[j], ka[i], kb[j], "two-parses") {
+				return
+			}
+		}
+	}
+	r.Eval(pairs)
+	distinct := map[string]bool{}
+	for _, k := range ka {
+		distinct[k] = true
+	}
+	if len(distinct) >= 3 {
+		r.NontrivialN("corpus/"+s.ID, len(distinct))
+	}
+	r.TallyN("corpus", "type-objects", len(A)+len(B))
+	r.TallyN("corpus", "pairs", pairs)
 }
